@@ -106,7 +106,10 @@ class C17(Check):
             progs.append(ops)
             ok = valid_extra(exp_local, large) and (variant.split("/")[0] in ("shared", "local-only") or valid_extra(exp_central, large))
             metas.append(dict(k="extra", local=exp_local.hex(), central=exp_central.hex(), valid=ok, large=large, variant=variant))
-        lines, outs = wprog.with_tables(self.exes["debug"], [dict(ops=o) for o in progs])
+        # every third program over a sink that accepts each write only partially (never fails): extra data and padding
+        # must land complete all the same
+        plans = [bytes(r.choice([1, 2, 3, 7, 40]) for _ in range(r.randrange(30, 300))) if j % 3 == 2 and not metas[j].get("impl_only") else None for j in range(len(progs))]
+        lines, outs = wprog.with_tables(self.exes["debug"], [dict(ops=o, plan=pl) for o, pl in zip(progs, plans)])
         cases = list(zip(lines, metas))
         # the reader's view of aligned entries
         for (l, m), o in zip(list(cases), outs):
